@@ -146,12 +146,16 @@ class Integrator(object):
     def compute_h_minimum(self):
         a_eval = self.acceleration_evals[0]
 
-        hmin = 1.0
+        hmin = np.inf
         for pa in a_eval.particle_arrays:
             if pa.gpu:
                 h = pa.gpu.get_device_array('h')
             else:
                 h = pa.get_carray('h')
+
+            if h.length == 0:
+                # The cached minimum of an empty array is zero.
+                continue
 
             if h.minimum < hmin:
                 hmin = h.minimum
